@@ -515,11 +515,39 @@ def near_bounds(a: Dict[str, Any], rng):
     return rng.choice(cands) if cands else None
 
 
+def in_domain(a: Dict[str, Any], rng):
+    """a value inside the declared range / allowed list (None when nothing is declared)"""
+    k = kind_of(a["type"])
+    al = a.get("allowed")
+    r = a.get("range") or {}
+    try:
+        if al:
+            t = rng.choice(al)
+            return int(t) if k == "int" else (float(t) if k == "float" else t)
+        lo = r.get("min") or None
+        hi = r.get("max") or None
+        if lo is None and hi is None:
+            return None
+        if k == "int":
+            lo_i = int(lo) if lo is not None else int(hi) - 1000
+            hi_i = int(hi) if hi is not None else lo_i + 1000
+            return rng.randint(lo_i, hi_i) if lo_i <= hi_i else None
+        if k == "float":
+            lo_f = float(lo) if lo is not None else float(hi) - 10.0
+            hi_f = float(hi) if hi is not None else lo_f + 10.0
+            if math.isinf(hi_f):
+                hi_f = lo_f + 1e6
+            return rng.uniform(lo_f, hi_f)
+    except ValueError:
+        return None
+    return None
+
+
 def rand_value(rng, a: Dict[str, Any]) -> Any:
     """mostly a value of the declared type; sometimes a boundary / wrong-type value"""
     k = kind_of(a["type"])
     c = rng.random()
-    if c < 0.12:  # wrong Python type
+    if c < 0.05:  # wrong Python type
         if k == "int":
             return rng.choice([True, False, True, "5", 5.0, None, [1]])
         if k == "float":
@@ -529,12 +557,16 @@ def rand_value(rng, a: Dict[str, Any]) -> Any:
         if k == "bool":
             return rng.choice([1, 0, "1", None, "true"])
         return rng.choice([rand_date(rng), rand_time(rng), rand_datetime(rng), "2020-01-01", None, 5])
-    if c < 0.45:
+    if c < 0.30:
         nb = near_bounds(a, rng)
         if nb is not None:
             return nb
+    if c < 0.85:
+        dom = in_domain(a, rng)
+        if dom is not None:
+            return dom
     if k == "int":
-        return rand_int(rng)
+        return rng.random() < 0.5 if rng.random() < 0.05 else rand_int(rng)
     if k == "float":
         return rand_float(rng)
     if k == "str":
